@@ -58,7 +58,7 @@ def box(sym: Sym, st: State):
             return sym.t.arg(0)
         tup = sym.spec.tup if sym.spec else None
         if tup is None:
-            v = fresh("boxseq", V)
+            v = uf("mkSeq", SeqV, V)(sym.t)  # list or tuple, statically unknown (a function of the content: binder-safe)
             st.pc.append(z3.Or(typeof(v) == CLASSES.const("list"), typeof(v) == CLASSES.const("tuple")))
         else:
             v = (mkT if tup else mkL)(sym.t)
